@@ -122,6 +122,39 @@ def run(ctx, chk):
     def action_of(p):
         return G.main_user_action(p["action"])
 
+    def mir_register_borrows(fn):
+        """sequence of registers whose address is taken in the action, resolved through local reference aliases
+        (`let arch = &vm.arch; ... arch.ax`): [(field name, borrowed mutably?)]"""
+        alias = {}  # local -> (root local, [field names])
+        for l in range(1, fn["argc"] + 1):
+            alias[l] = (l, [])
+        seq = []
+        changed = True
+        stmts = [s_ for bb in fn["blocks"] if not bb.get("cleanup") for s_ in bb["stmts"] if s_[0] == "assign"]
+        while changed:
+            changed = False
+            for s_ in stmts:
+                rv = s_[2]
+                src = None
+                if rv[0] == "ref":
+                    src = rv[1]
+                elif rv[0] == "use" and rv[1][0] in ("copy", "move"):
+                    src = rv[1][1]
+                if src is None or s_[1]["p"] or s_[1]["l"] in alias or src["l"] not in alias:
+                    continue
+                root, path = alias[src["l"]]
+                alias[s_[1]["l"]] = (root, path + [e[2] for e in src["p"] if isinstance(e, list) and e[0] == "f"])
+                changed = True
+        for s_ in stmts:
+            rv = s_[2]
+            if rv[0] != "ref" or rv[1]["l"] not in alias:
+                continue
+            root, path = alias[rv[1]["l"]]
+            full = path + [e[2] for e in rv[1]["p"] if isinstance(e, list) and e[0] == "f"]
+            if "VM" in fn["locals"][root]["ty"] and len(full) == 2 and full[0] == "arch" and rv[1].get("ty", "").endswith("u16"):
+                seq.append((full[1], rv[2] == "mut"))
+        return seq
+
     kp = by_terms.get(("print", "reg"))
     if kp is None:
         chk.violation("C17.R1", "print reg", "missing", "the print grammar has no `print reg` production", file)
@@ -129,7 +162,14 @@ def run(ctx, chk):
         k, p = kp
         ua = action_of(p)
         where = f"{file}:{p['line']}"
+        fn = G.action_fn(ua["idx"])
+        seq = mir_register_borrows(fn) if fn is not None else []
+        for reg, mut in seq:
+            if mut:
+                chk.violation("C17.R2", "print reg", f"mut-borrow-{reg}", "a register is borrowed mutably while printing", where)
+        seq = [r for r, _ in seq]
         seen = []
+        pairs_all = []
         ast_fields = []
         for mc in macros(ua["ast"]):
             if not mc["args"]:
@@ -144,43 +184,27 @@ def run(ctx, chk):
                 chk.undecided_("C17.R1", f"print reg@{mc.get('line')}", "placeholder/argument count differs (named or positional arguments)")
                 continue
             for (text, spec), a in zip(pairs, args):
-                lab = label_of(text)
+                pairs_all.append((label_of(text), spec))
                 fp = field_path(a)
-                if fp is None or len(fp) != 3 or fp[1] != "arch":
-                    chk.undecided_("C17.R1", f"reg:{lab}", f"argument is not a register field: {fp}")
-                    continue
-                reg = fp[2]
-                ast_fields.append(reg)
+                ast_fields.append(fp[-1] if fp else None)
+        # the argument of the i-th placeholder is the i-th register the compiler borrows for formatting
+        if len(seq) != len(pairs_all):
+            chk.undecided_("C17.R1", "print reg", f"{len(pairs_all)} placeholders but {len(seq)} register borrows in the compiled action")
+        else:
+            for (lab, spec), reg, af in zip(pairs_all, seq, ast_fields):
                 seen.append(reg)
-                if lab is None or lab.lower() != reg:
+                if af is not None and af != reg:
+                    chk.violation("C17.R1", "print reg", "resolution-mismatch", f"the action text reads `{af}` where the compiler borrows {reg}", where)
+                elif lab is None or lab.lower() != reg:
                     chk.violation("C17.R1", "print reg", f"label-{lab}-shows-{reg}", f"`print reg` prints the value of {reg.upper()} under the label {lab}", where)
                 elif spec != ":04X":
                     chk.violation("C17.R1", "print reg", f"format-{reg}-{spec}", f"{reg.upper()} is printed with '{{{spec}}}', documented: four upper-case hex digits ({{:04X}})", where)
-                elif fp[0] != "vm":
-                    chk.violation("C17.R1", "print reg", f"machine-{fp[0]}", f"{reg.upper()} is read from `{fp[0]}`, not from the grammar's machine parameter", where)
                 else:
-                    chk.ok("C17.R1", f"reg:{reg}", f"{lab} <- vm.arch.{reg} as {{{spec}}}")
-        for r in REG_FIELDS:
-            if r not in seen:
-                chk.violation("C17.R1", "print reg", f"missing-{r}", f"`print reg` does not show {r.upper()}", where)
-        # MIR cross-check of the argument resolution
-        fn = G.action_fn(ua["idx"])
-        if fn is not None:
-            seq = []
-            for bb in fn["blocks"]:
-                if bb.get("cleanup"):
-                    continue
-                for s in bb["stmts"]:
-                    if s[0] == "assign" and s[2][0] == "ref":
-                        fl = [e[2] for e in s[2][1]["p"] if isinstance(e, list) and e[0] == "f"]
-                        if len(fl) == 2 and fl[0] == "arch" and 1 <= s[2][1]["l"] <= fn["argc"]:
-                            seq.append(fl[1])
-                            if s[2][2] == "mut":
-                                chk.violation("C17.R2", "print reg", f"mut-borrow-{fl[1]}", "a register is borrowed mutably while printing", where)
-            if seq == ast_fields:
-                chk.ok("C17.R1", "reg:resolution", f"MIR borrows (*vm).arch.{{{','.join(seq)}}} in the same order as the format arguments")
-            else:
-                chk.violation("C17.R1", "print reg", "resolution-mismatch", f"the compiler resolves the format arguments to {seq}, the action text reads {ast_fields}", where)
+                    chk.ok("C17.R1", f"reg:{reg}", f"{lab} <- (*vm).arch.{reg} as {{{spec}}}")
+            for r in REG_FIELDS:
+                if r not in seen:
+                    chk.violation("C17.R1", "print reg", f"missing-{r}", f"`print reg` does not show {r.upper()}", where)
+            chk.ok("C17.R1", "reg:resolution", f"placeholders paired with the compiler's borrow sequence (*vm).arch.{{{','.join(seq)}}}")
     # ---------------- R1 flags
     kp = by_terms.get(("print", "flags"))
     if kp is None:
